@@ -101,3 +101,99 @@ func stripConv(v ssa.Value) ssa.Value {
 		}
 	}
 }
+
+// Roots traces a value back to where it comes from, across functions: conversions and phis are
+// transparent, a parameter of a named function continues at every static call site in the tree,
+// a load of a local continues at its stores, and a call for which `through` returns an argument
+// continues at that argument (order-/identity-preserving helpers). Everything else is a root.
+func (p *Prog) Roots(v ssa.Value, through func(c *ssa.Call) ssa.Value, depth int) []ssa.Value {
+	seen := map[ssa.Value]bool{}
+	var roots []ssa.Value
+	var walk func(x ssa.Value, d int)
+	walk = func(x ssa.Value, d int) {
+		if x == nil || seen[x] {
+			return
+		}
+		seen[x] = true
+		switch y := x.(type) {
+		case *ssa.Convert:
+			walk(y.X, d)
+			return
+		case *ssa.ChangeType:
+			walk(y.X, d)
+			return
+		case *ssa.ChangeInterface:
+			walk(y.X, d)
+			return
+		case *ssa.MakeInterface:
+			walk(y.X, d)
+			return
+		case *ssa.Phi:
+			for _, e := range y.Edges {
+				walk(e, d)
+			}
+			return
+		case *ssa.UnOp:
+			if y.Op == token.MUL {
+				var al *ssa.Alloc
+				switch a := y.X.(type) {
+				case *ssa.Alloc:
+					al = a
+				case *ssa.FreeVar:
+					al = p.freeVarAlloc(a)
+				}
+				if al != nil {
+					sts := p.storesTo(al)
+					if len(sts) > 0 {
+						for _, st := range sts {
+							walk(st.Val, d)
+						}
+						return
+					}
+				}
+			}
+		case *ssa.FreeVar:
+			if b := p.freeVarBinding(y); b != nil {
+				walk(b, d)
+				return
+			}
+		case *ssa.Call:
+			if through != nil {
+				if a := through(y); a != nil {
+					walk(a, d)
+					return
+				}
+			}
+		case *ssa.Parameter:
+			fn := y.Parent()
+			if d > 0 && fn.Parent() == nil {
+				idx := -1
+				for i, prm := range fn.Params {
+					if prm == y {
+						idx = i
+					}
+				}
+				var sites []Site
+				for _, caller := range p.Funcs {
+					for _, in := range allInstrs(caller) {
+						if cc := callCommon(in); cc != nil && CalleeOf(cc) == fn {
+							sites = append(sites, Site{caller, in})
+						}
+					}
+				}
+				if idx >= 0 && len(sites) > 0 {
+					for _, s := range sites {
+						cc := callCommon(s.In)
+						if idx < len(cc.Args) {
+							walk(cc.Args[idx], d-1)
+						}
+					}
+					return
+				}
+			}
+		}
+		roots = append(roots, x)
+	}
+	walk(v, depth)
+	return roots
+}
